@@ -176,7 +176,7 @@ pub fn comment_start(input: &mut LineReader) -> Parsed<(), ParseError> {
     }
 }
 
-pub fn comment_body<'a>(input: &'a mut LineReader) -> &'a BStr {
+pub fn comment_body<'a>(input: &'a mut LineReader) -> Result<&'a BStr, ParseError> {
     let mut offset = 0;
 
     while !matches!(
@@ -186,7 +186,12 @@ pub fn comment_body<'a>(input: &'a mut LineReader) -> &'a BStr {
         offset += 1;
     }
 
-    input.reader.advance_with_buf(offset).into()
+    if input.reader.request_byte_at_offset(offset).is_none() {
+        // The comment might have been cut short by a failing source.
+        input.reader.check_io_error()?;
+    }
+
+    Ok(input.reader.advance_with_buf(offset).into())
 }
 
 #[inline]
